@@ -24,7 +24,7 @@ def fresh():
     # compare by checksum and do NOT preserve times: a file whose content changes gets a fresh mtime
     # (cargo decides by mtime), an unchanged file keeps its own
     sh(f"rsync -rlpc --delete --exclude target --exclude .git /repo/ {CF}/repo/")
-    sh(f"rsync -rlpc --delete --exclude target --exclude Cargo.toml /verif/harness/ {CF}/harness/")
+    sh(f"rsync -rlpc --delete --exclude target --exclude /Cargo.toml /verif/harness/ {CF}/harness/")
     if not os.path.exists(f"{CF}/harness/Cargo.toml"):
         shutil.copy("/verif/harness/Cargo.toml", f"{CF}/harness/Cargo.toml")
         sh(f"sed -i 's#\"/repo#\"{CF}/repo#' {CF}/harness/Cargo.toml")
